@@ -2,11 +2,14 @@
 # MANIFEST.setup_cmd: full .vo build of the Coq development (no -vos), plus the forbidden-word scan.
 set -e
 cd "$(dirname "$0")/.."
-if grep -rnE '\b(Admitted|admit|Axiom|Parameter|Conjecture|Unset Guard Checking|bypass_check|Admit Obligations|Unset Universe Checking|Unset Positivity Checking)\b' coq/theories --include='*.v' | grep -v '^\S*:[0-9]*:\s*(\*' ; then
+if grep -rnE '\b(Admitted|admit|Axiom|Parameter|Conjecture|Unset Guard Checking|bypass_check|Admit Obligations|Unset Universe Checking|Unset Positivity Checking)\b' coq/theories coq/gen_proofs --include='*.v' | grep -v '^\S*:[0-9]*:\s*(\*' ; then
   echo "forbidden construct in the Coq development" >&2; exit 3
 fi
 bin/mkcoqproject
 cd coq
 timeout 3600 make -j16 2>&1 | tail -n 40
 test ${PIPESTATUS[0]} -eq 0
+cd ..
+# translation tie (docs/translator.md): unwrap / extract_futures of /repo translated to Gallina and proved equal to the model
+/venv/bin/python -m harness.lib.transcheck /repo
 echo "setup ok"
